@@ -522,8 +522,7 @@ def run(tier, seed, build=True):
             res.count()
             res.distinct(("embedded", le, eex["entry"], nl))
             got = parse_out(r.out)
-            feats = {"stage": "embedded-second-date", "lead_entry": le, "embedded_entry": eex["entry"], "embedded_listed_before_lead": eex["entry"] < le,
-                     "file_smaller_than_8096": sum(len(l) + 1 for l in out_lines) < 8096}
+            feats = {"stage": "embedded-second-date", "lead_entry": le, "embedded_entry": eex["entry"], "file_smaller_than_8096": sum(len(l) + 1 for l in out_lines) < 8096}
             rep = {"engine": "E-CLI", "args": ["--color", "never", "-u", "-d", DTFMT, "-t=-03:30", "x.log"], "files": {"x.log": common.b64(b"".join(l + b"\n" for l in out_lines))},
                    "mtime": gen.days_from_civil(2024, 6, 30) * 86400}
             if r.rc not in (0, 1) or r.timed_out:
@@ -531,15 +530,114 @@ def run(tier, seed, build=True):
                 continue
             stamped = [(ns, txt) for ns, txt in got if ns is not None]
             if len(stamped) != len(out_lines) or [t for _, t in stamped] != out_lines:
+                p_ = os.path.join(work, "dy%d_%d_%d.log" % (le, ei, nl))
+                common.write_file(p_, b"".join(l + b"\n" for l in out_lines))
+                rs_ = common.run_s4(["--color", "never", "-s", "-t=-03:30", os.path.basename(p_)], cwd=work, timeout=60)
+                os.remove(p_)
+                used = [int(x) for x in re.findall(rb"@\[(\d+)\] uses", rs_.err)]
+                feats["pattern_in_use_listed_before_lead"] = bool(used) and min(used) < le
                 res.violation(dict(feats, symptom="messages-not-separated", printed=min(len(stamped), 99)),
                               "file in notation of entry %d whose first message embeds %r: %d of %d lines printed as messages of their own" % (le, eex["line"][:60], len(stamped), len(out_lines)), rep)
                 continue
             wrong = [k for k, ((ns, _), e_) in enumerate(zip(stamped, exps)) if ns != e_]
+            if wrong or len(stamped) != len(out_lines):
+                # which built-in pattern did the file end up with? (the summary names it)
+                p_ = os.path.join(work, "dx%d_%d_%d.log" % (le, ei, nl))
+                common.write_file(p_, b"".join(l + b"\n" for l in out_lines))
+                rs_ = common.run_s4(["--color", "never", "-s", "-t=-03:30", os.path.basename(p_)], cwd=work, timeout=60)
+                os.remove(p_)
+                used = [int(x) for x in re.findall(rb"@\[(\d+)\] uses", rs_.err)]
+                feats["pattern_in_use_listed_before_lead"] = bool(used) and min(used) < le
             if wrong:
                 res.violation(dict(feats, symptom="wrong-instant", only_first_message=wrong == [0]),
                               "file in notation of entry %d whose first message embeds %r: message %d attributed %+.3f s away from its leading timestamp" % (
                                   le, eex["line"][:60], wrong[0], (stamped[wrong[0]][0] - exps[wrong[0]]) / 1e9), rep)
         res.coverage["embedded_second_date_files"] = nD
+        # ---- stage E: position of the notation inside the line. For notations whose pattern may match away from the line start,
+        # the documented example is shifted right by filler so that its timestamp ends exactly at the last byte of the pattern's
+        # search window, one byte before it, and in the middle of the window.
+        ranges = {d["index"]: tuple(d["range"]) for d in dump}
+        unanchored = {d["index"]: not d["regex"].startswith("^") for d in dump}
+        # minimal width of what each pattern requires AFTER its last captured field (a closing bracket, a non-digit, ...)
+        import sre_parse
+        tail_width = {}
+        for d in dump:
+            rx = d["regex"]
+            k_ = rx.rfind("(?P<%s>" % d["cgn_last"])
+            if k_ < 0:
+                continue
+            depth, j_ = 0, k_
+            while j_ < len(rx):          # find the end of that group
+                c_ = rx[j_]
+                if c_ == "\\":
+                    j_ += 2
+                    continue
+                if c_ == "[":            # skip a bracket expression (may hold parentheses and nested [:class:])
+                    j_ += 1
+                    while j_ < len(rx) and not (rx[j_] == "]" and rx[j_ - 1] != "[" and not rx[j_ - 2:j_ + 1].endswith(":]") ):
+                        j_ += 2 if rx[j_] == "\\" else 1
+                    j_ += 1
+                    continue
+                if c_ == "(":
+                    depth += 1
+                elif c_ == ")":
+                    depth -= 1
+                    if depth == 0:
+                        break
+                j_ += 1
+            rem = rx[j_ + 1:]
+            for a_, b_ in (("[:digit:]", "0-9"), ("[:^digit:]", "^0-9"), ("[:blank:]", " \\t"), ("[:alpha:]", "a-zA-Z"), ("[:alnum:]", "a-zA-Z0-9"), ("[:^alnum:]", "^a-zA-Z0-9"),
+                           ("[:space:]", " \\t\\n"), ("[:upper:]", "A-Z"), ("[:lower:]", "a-z"), ("[:punct:]", "!-/")):
+                rem = rem.replace(a_, b_)
+            rem = rem.replace("[[^", "[^").replace("[[", "[").replace("]]", "]")
+            try:
+                tail_width[d["index"]] = sre_parse.parse(rem).getwidth()[0]
+            except Exception:
+                pass
+        ejobs = []
+        seen_e = set()
+        for i, ex in enumerate(examples):
+            e = ex["entry"]
+            if e in seen_e or not unanchored.get(e) or not has_year.get(e) or ex["tz"] not in consts or is_epoch.get(e):
+                continue
+            if consts[ex["tz"]] is None:
+                continue            # keep to examples whose zone is written (no fallback involved)
+            seen_e.add(e)
+            r_end = ranges[e][1]
+            tail = tail_width.get(e)
+            if tail is None:
+                continue            # the text the pattern needs after its last field could not be measured
+            for back0 in (0, 1, (r_end - ex["end"]) // 2):
+                back = back0 + tail     # the whole match (last field + what the pattern requires after it) ends `back0` bytes before the window end
+                k = r_end - ex["end"] - back
+                if k < 2 or k > 4000:
+                    continue
+                ejobs.append((i, ex, k, back))
+        if tier == "quick":
+            ejobs = [j for j in ejobs if j[3] - tail_width.get(j[1]["entry"], 0) in (0, 1)]
+
+        def stage_e(job):
+            i, ex, k, back = job
+            line = b"f" * (k - 1) + b" " + ex["line"].encode("utf-8")
+            y = ex["t"][0]
+            r = run_file(work, "e%d_%d.log" % (i, k), [line, line], "+00:00", gen.days_from_civil(y, 6, 30) * 86400)
+            return job, line, r
+        nE = 0
+        for (i, ex, k, back), line, r in common.pmap(stage_e, ejobs):
+            nE += 1
+            res.count()
+            res.distinct(("position", ex["entry"], back))
+            got = parse_out(r.out)
+            exp = epoch_ns(ex["t"], consts[ex["tz"]])
+            feats = {"stage": "position-in-window", "entry": ex["entry"], "bytes_before_window_end": back}
+            rep = {"engine": "E-CLI", "args": ["--color", "never", "-u", "-d", DTFMT, "-t=+00:00", "x.log"], "files": {"x.log": common.b64(line + b"\n" + line + b"\n")},
+                   "mtime": gen.days_from_civil(ex["t"][0], 6, 30) * 86400}
+            if not got or got[0][0] is None:
+                continue        # not recognised at this position: other notations' windows may end earlier; only a WRONG instant is judged
+            if got[0][0] != exp:
+                res.violation(dict(feats, symptom="wrong-instant"), "entry %d: the documented example shifted so that its timestamp ends %d byte(s) before the end of the pattern's window [%d,%d) is attributed %+.3f s away" % (
+                    ex["entry"], back, ranges[ex["entry"]][0], ranges[ex["entry"]][1], (got[0][0] - exp) / 1e9), rep)
+        res.coverage["position_in_window_files"] = nE
         # ---- stage C: zone abbreviations in notations that carry a named zone: unambiguous ones denote their offset,
         # ambiguous ones (the project table's empty entries) are read in the --tz-offset zone
         ambiguous = c14.ambiguous_names()[: (6 if tier == "quick" else 40)]
